@@ -2289,8 +2289,14 @@ fn main() {
         // Light lanes (Miri, memcheck) rarely get through every width inside their
         // time budget: each shard starts at a different width.
         let start = if m.is_light() { ((m.cfg.shard * 8 + m.cfg.seed * 3) % ws.len().max(1) as u64) as usize } else { 0 };
-        for i in 0..ws.len() {
-            workload(&mut m, ws[(start + i) % ws.len()]);
+        loop {
+            for i in 0..ws.len() {
+                m.begin_width_slice(i, ws.len());
+                workload(&mut m, ws[(start + i) % ws.len()]);
+            }
+            if !m.another_light_pass() {
+                break;
+            }
         }
     }
     tally_report(&mut m);
